@@ -96,6 +96,8 @@ func New(opts *Options) (*NSQD, error) {
 		dl:                   dirlock.New(dataPath),
 	}
 	n.ctx, n.ctxCancel = context.WithCancel(context.Background())
+	n.clientIDSequence = verifIDBase()
+	verif.Ev("NsqdNew", "base", n.clientIDSequence)
 	httpcli := http_api.NewClient(nil, opts.HTTPClientConnectTimeout, opts.HTTPClientRequestTimeout)
 	n.ci = clusterinfo.New(n.logf, httpcli)
 
